@@ -29,6 +29,9 @@ func (a *A) C02() {
 	// the PMT PIDs learned from PATs stay registered: the program map is only ever extended, by updateData (rule I2 of C07);
 	// emptying it per PAT section would unregister the programs of the other sections of a multi-section PAT
 	a.programMapWriters()
+	// every assembled (non-empty) group is handed to parseData exactly once, whatever its first packet looks like (the
+	// call-site rules of C19): nothing between the pool and the parser may withhold a unit
+	a.parserFirst()
 	a.assembledPayload()
 }
 
